@@ -43,8 +43,8 @@ BACK_TARGET = (-2, 5, 300)
 
 def scopes(tier):
     if tier == "thorough":
-        return dict(small1=[(4, (-1, 0, 1, 2, 300, 70000)), (5, (-1, 0, 1, 300))], small2=(3, 2, (0, 1, 2)), max_maps=150,
-                    big1=(79, 80, 81, 99, 100, 101, 120), big2=(39, 40, 50, 100), big_cand=6, big_payload=(4, 5), big_maps=24, big_allperms=False, big_commons=6,
+        return dict(small1=[(4, (-1, 0, 1, 2, 300, 70000)), (5, (-1, 0, 1, 300))], small2=(3, 2, (0, 1, 2)), max_maps=60,
+                    big1=(79, 80, 99, 100, 101, 120), big2=(39, 40, 50, 100), big_cand=6, big_payload=(4, 5), big_maps=12, big_allperms=False, big_commons=4,
                     alldistinct=(100, 101, 120),
                     st1=[(4, (-1, 0, 1, 2, 300, 70000)), (5, (-1, 0, 1, 300))], st2=(3, 2, (0, 1, 2)), st_maps=100)
     return dict(small1=[(3, (-1, 0, 1, 2))], small2=(2, 2, (0, 1, 2)), max_maps=200,
@@ -104,8 +104,8 @@ def big_arrays(sc):
             for k in sc["big_payload"]:
                 for pos in itertools.combinations(cand, k):
                     for vi, vs in enumerate(valsets):
-                        # every ordered assignment for the first value set; the rotations for the second (with a negative: unique fallback)
-                        perms = list(itertools.permutations(vs[:k])) if (vi == 0 or sc["big_allperms"]) else \
+                        # every ordered assignment of 4 values for the first value set; rotations otherwise (second set has a negative: unique fallback)
+                        perms = list(itertools.permutations(vs[:k])) if ((vi == 0 and k == 4) or sc["big_allperms"]) else \
                             [vs[i:k] + vs[:i] for i in range(k)]
                         for perm in perms:
                             a = np.zeros(shape, dtype=np.int64)
